@@ -57,14 +57,16 @@ theorem extract_getD (x : Array Int) (lo nn t : Nat) (h : lo + nn ≤ x.size) (h
 /-- the identity-transform module satisfies `DftOpsSound`, with `RepV P sz d` = "`d` is the `sz·nn` cells
     holding `P` limb after limb" -/
 def toySound (nn : Nat) : DftOpsSound (toyParts nn) nn where
+  nn_eq := rfl
   RepV P sz d := d.size = sz * nn ∧ ∀ i t, i < sz → t < nn → d.getD (i * nn + t) 0 = P.coef i t
   RepS _ _ := True
   RepM _ _ _ _ := True
-  dft_budget _ _ := True
+  dft_budget _ _ _ := True
   svp_prepare_budget _ := True
-  svp_budget _ _ _ := False
+  svp_budget _ _ _ _ := False
   vmp_prepare_budget _ _ _ := True
-  vmp_budget _ _ _ _ _ := False
+  vmp_budget _ _ _ _ _ _ := False
+  vmp_dd_budget _ _ _ _ _ _ _ := False
   idft_budget _ _ := True
   small_product_budget _ _ := False
   dft_exact := by
@@ -94,6 +96,7 @@ def toySound (nn : Nat) : DftOpsSound (toyParts nn) nn where
   svp_exact := fun _ _ _ _ _ _ _ _ _ _ hb => hb.elim
   vmp_prepare_exact := fun _ _ _ _ _ _ => trivial
   vmp_exact := fun _ _ _ _ _ _ _ _ _ _ _ _ hb => hb.elim
+  vmp_dd_exact := fun _ _ _ _ _ _ _ _ _ _ _ _ hb => hb.elim
   dft_idft_exact := by
     intro P sz rsz d hrep _ i t hi ht
     obtain ⟨hs, hv⟩ := hrep
